@@ -1253,7 +1253,16 @@ fn load_general_body(idx: usize) {
 }
 
 crate::with_fire_forbidden! {
-//@ props=C02,C03 tier=quick timeout=2400 weight=heavy fns=src/rt/atomic.rs::State::load,src/rt/atomic.rs::State::apply_load_coherence bounded=threads:N=2 models=VersionVec::join=s_vv_models_agree,FirstSeen::is_seen_by_current=s_firstseen
+//@ props=C02,C03 tier=quick timeout=1500 fns=src/rt/atomic.rs::State::load,src/rt/atomic.rs::State::apply_load_coherence bounded=threads:N=2,read_index:3 models=VersionVec::join=s_vv_models_agree,FirstSeen::is_seen_by_current=s_firstseen
+#[kani::proof]
+#[kani::unwind(12)]
+fn c03_load_general_i3() {
+    load_general_body(3);
+}
+}
+
+crate::with_fire_forbidden! {
+//@ props=C02,C03 tier=thorough timeout=3000 fns=src/rt/atomic.rs::State::load,src/rt/atomic.rs::State::apply_load_coherence bounded=threads:N=2,read_index:0|3|6 models=VersionVec::join=s_vv_models_agree,FirstSeen::is_seen_by_current=s_firstseen
 #[kani::proof]
 #[kani::unwind(12)]
 fn c03_load_general() {
@@ -1442,7 +1451,16 @@ fn rmw_general_body(idx: usize) {
 }
 
 crate::with_fire_forbidden! {
-//@ props=C02,C03 tier=quick timeout=2400 weight=heavy fns=src/rt/atomic.rs::State::rmw bounded=threads:N=2,cnt:4 models=VersionVec::join=s_vv_models_agree,FirstSeen::is_seen_by_current=s_firstseen
+//@ props=C02,C03 tier=quick timeout=1500 fns=src/rt/atomic.rs::State::rmw bounded=threads:N=2,cnt:4,read_index:3 models=VersionVec::join=s_vv_models_agree,FirstSeen::is_seen_by_current=s_firstseen
+#[kani::proof]
+#[kani::unwind(12)]
+fn c03_rmw_general_i3() {
+    rmw_general_body(3);
+}
+}
+
+crate::with_fire_forbidden! {
+//@ props=C02,C03 tier=thorough timeout=3000 fns=src/rt/atomic.rs::State::rmw bounded=threads:N=2,cnt:4,read_index:0|3 models=VersionVec::join=s_vv_models_agree,FirstSeen::is_seen_by_current=s_firstseen
 #[kani::proof]
 #[kani::unwind(12)]
 fn c03_rmw_general() {
